@@ -8,7 +8,7 @@ CONSTANTS
   MaxDev = 0
   MaxSteps = 99
   Seeded = FALSE
-  Vary = {"post", "refresh"}
+  Vary = {"post", "refresh", "dyn"}
   Narrow = FALSE
 INVARIANT NoViolation
 VIEW View
